@@ -2,21 +2,8 @@ package main
 
 import (
 	"fmt"
-
-	"go.dedis.ch/kyber/v4/pairing/bls12381/circl"
+	"os"
+	"verif/harness/checks/c11"
 )
 
-func main() {
-	s := circl.NewSuite()
-	B1, B2 := s.G1().Point().Base(), s.G2().Point().Base()
-	O1, O2 := s.G1().Point().Null(), s.G2().Point().Null()
-	two := s.G1().Scalar().SetInt64(2)
-	fmt.Println("VP(B,B,O,B)", s.ValidatePairing(B1, B2, O1, B2), "want false")
-	fmt.Println("VP(O,B,B,B)", s.ValidatePairing(O1, B2, B1, B2), "want false")
-	fmt.Println("VP(B,O,B,B)", s.ValidatePairing(B1, O2, B1, B2), "want false")
-	fmt.Println("VP(B,B,B,O)", s.ValidatePairing(B1, B2, B1, O2), "want false")
-	fmt.Println("VP(B,B,B,B)", s.ValidatePairing(B1, B2, B1, B2), "want true")
-	fmt.Println("VP(2B,B,B,2B)", s.ValidatePairing(s.G1().Point().Mul(two, B1), B2, B1, s.G2().Point().Mul(two, B2)), "want true")
-	fmt.Println("VP(2B,B,B,B)", s.ValidatePairing(s.G1().Point().Mul(two, B1), B2, B1, B2), "want false")
-	fmt.Println("Pair(O,B)==1", s.Pair(O1, B2).Equal(s.GT().Point().Null()))
-}
+func main() { c11.DebugRabin(); _ = os.Stdout; fmt.Println() }
